@@ -116,7 +116,12 @@ func (pc *probe) runStoreCancelled(orig any, want string, mk func() storeOps) {
 
 	// read back: identical pristine value, healthy context
 	in2 := pc.fresh(orig)
+	readCtx := bg
 	if err := pc.call("store of the pristine value after the failed hand-over", func() error { return ops.store(bg, in2) }); err != nil {
+		// already a finding; the key may now be absent, so do not let the read-back wait for the watchdog
+		var cancelRead context.CancelFunc
+		readCtx, cancelRead = context.WithTimeout(bg, 2*time.Second)
+		defer cancelRead()
 		pc.anomaly("store-kept-mutated-object", fmt.Sprintf("after a %s hand-over (Store returned: %v) and a scribble of the caller's object, storing the pristine value fails: %v", variant, storeErr, err))
 	}
 	rin2 := pc.reach(in2)
@@ -125,10 +130,13 @@ func (pc *probe) runStoreCancelled(orig any, want string, mk func() storeOps) {
 		var v any
 		if err := pc.call("read back", func() error {
 			var err error
-			v, err = ops.read(bg)
+			v, err = ops.read(readCtx)
 			return err
 		}); err != nil {
-			pc.anomaly("read-failed", fmt.Sprintf("read back after a %s hand-over: %v", variant, err))
+			if readCtx == bg {
+				pc.anomaly("read-failed", fmt.Sprintf("read back after a %s hand-over: %v", variant, err))
+			}
+
 			break
 		}
 		pc.r.Count("reads", 1)
